@@ -17,6 +17,15 @@ class Engine:
         self._in_progress = []
         self._const_lit = {}
         self.stats = {"functions_walked": 0, "paths": 0, "calls_resolved": 0}
+        self._imports = None
+
+    @property
+    def imports(self):
+        if self._imports is None:
+            from .imports import ImportClosure
+
+            self._imports = ImportClosure(self.prog)
+        return self._imports
 
     # -- summaries (bottom-up on demand; recursion is an analysis error)
     def summary(self, fi, clsbind=None, inline=frozenset()):
